@@ -329,9 +329,16 @@ class Engine:
         return {
             "op": "transfer", "src": src, "sw": enc(s_arg), "dst": dst, "dw": enc(d_arg), "vol": enc(v_arg),
             "label": rng.choice(SAFE_LABELS), "wash": rng.choice([1, 2, 3, 4, "flush", "reuse"]),
-            "pb": rng.choice(["auto", "auto", "source", "destination"]), "kw": {},
+            "pb": rng.choice(["auto", "auto", "source", "destination"]), "kw": self._transfer_kwargs(),
             "_fault": fault, "_shapes": [s_shp, d_shp, v_shp, mode],
         }
+
+    def _transfer_kwargs(self):
+        if self.rng.random() < self.profile.get("wl_kwargs", 0):
+            from .gen import gen_kwargs
+
+            return gen_kwargs(self.rng, 2)
+        return {}
 
     def gen_distribute(self):
         rng = self.rng
